@@ -50,11 +50,13 @@ TABLE = {
             ('OpyVerif.Generated.Constants', 'Opy.Gen', r'nArgs_'),
             ('OpyVerif.Proofs.HeapCode', 'Opy', None), ('OpyVerif.Generated.HeapOps', 'Opy.Gen', None),
             ('OpyVerif.Proofs.GrowProg', 'Opy', None), ('OpyVerif.Proofs.GrowCode', 'Opy', None), ('OpyVerif.Generated.Grow', 'Opy.Gen', None),
-            ('OpyVerif.Proofs.Forest', 'Opy', None)],
+            ('OpyVerif.Proofs.Forest', 'Opy', None),
+            ('OpyVerif.Proofs.PopLoops', 'Opy', None), ('OpyVerif.Proofs.PopLoopsCode', 'Opy', None), ('OpyVerif.Generated.PopLoops', 'Opy.Gen', None)],
     'C09': [('OpyVerif.Proofs.C09', 'Opy.PNode', None), ('OpyVerif.Proofs.C09repro', 'Opy.PNode', None),
             ('OpyVerif.Proofs.ReproProg', 'Opy', None), ('OpyVerif.Proofs.ReproCode', 'Opy', None), ('OpyVerif.Generated.Repro', 'Opy.Gen', None),
             ('OpyVerif.Proofs.SelectProg', 'Opy', r'tournProg'), ('OpyVerif.Generated.Select', 'Opy.Gen', r'tournProg_eq'),
-            ('OpyVerif.Proofs.Heap', 'Opy', None), ('OpyVerif.Proofs.HeapCode', 'Opy', None), ('OpyVerif.Generated.HeapOps', 'Opy.Gen', None)],
+            ('OpyVerif.Proofs.Heap', 'Opy', None), ('OpyVerif.Proofs.HeapCode', 'Opy', None), ('OpyVerif.Generated.HeapOps', 'Opy.Gen', None),
+            ('OpyVerif.Proofs.PopLoopsCode', 'Opy', None), ('OpyVerif.Generated.PopLoops', 'Opy.Gen', None)],
     'C10': [('OpyVerif.Proofs.C10', 'Opy', None), ('OpyVerif.Proofs.C10real', 'Opy', None),
             ('OpyVerif.Proofs.OpTable', 'Opy', None),
             ('OpyVerif.Generated.Ops', 'Opy.Gen', r'opTable_eq|terminal_returns_value|evalProg_eq'),
